@@ -151,4 +151,30 @@ def gCompute (s : LoopSpec) (n : Int) (o : GObj) : GObj :=
 /-- `get_state()` reads the last entry of the dynamics -/
 def gState (o : GObj) : Option (Int × Nat) := o.dyn.getLast?
 
+/-! ### `TIBaseBackend._unique`: merging equal coupling eigenvalues into one bond index -/
+section Unique
+variable {α : Type} [DecidableEq α]
+
+/-- `vals.index(vals[a])`: position of the first entry equal to entry `a` -/
+def firstIdx (vals : List α) (a : ℕ) : ℕ :=
+  match vals[a]? with
+  | some v => vals.idxOf v
+  | none => a
+
+/-- `indices = sorted(set(inverse), key=inverse.index)`: the first occurrences, ascending -/
+def uniqIndices (vals : List α) : List ℕ :=
+  (List.range vals.length).filter (fun a => firstIdx vals a == a)
+
+/-- the projection `[[int(i == j) for i in inverse] for j in indices]`: row `c` marks the members
+    of class `c` -/
+def uniqProj (vals : List α) : List (List ℕ) :=
+  (uniqIndices vals).map (fun j =>
+    (List.range vals.length).map (fun a => if firstIdx vals a = j then 1 else 0))
+
+/-- column sum of the projection: in how many classes state `a` is represented -/
+def classCount (vals : List α) (a : ℕ) : ℕ :=
+  ((uniqIndices vals).map (fun j => if firstIdx vals a = j then 1 else 0)).sum
+
+end Unique
+
 end OQuPyVerif.Gibbs
